@@ -1,6 +1,8 @@
 //! C20: the process-wide provider behind the convenience API under concurrency and after failing calls.
 //!   w20_conc <seed> <threads> <calls>   N threads issue mixed convenience calls at once; every result must equal the
 //!                                        result of the same call made alone (its *_with_provider twin, fresh provider)
+//!   w20_pconc <seed> <threads> <calls>  the same after a call has panicked while holding the provider (contended
+//!                                        callers must be served too)
 //!   w20_fail <seed> <kind>               a failing call (unknown zone / out-of-range / panic while holding the provider
 //!                                        lock, injected through the verif_hooks feature), then ordinary calls
 //!   w20_many <seed> <n>                  n distinct zones go through the shared provider (from several threads), then
@@ -25,6 +27,9 @@ pub fn generate(rng: &mut Rng, thorough: bool) -> Vec<String> {
     let n = if thorough { 300 } else { 40 };
     for _ in 0..n {
         v.push(format!("w20_conc {} {} {}", rng.next() % 1_000_000, *rng.pick(&[2u32, 4, 8, 16]), *rng.pick(&[5u32, 20, 60])));
+    }
+    for _ in 0..(if thorough { 60 } else { 12 }) {
+        v.push(format!("w20_pconc {} {} {}", rng.next() % 1_000_000, *rng.pick(&[4u32, 8, 16]), *rng.pick(&[20u32, 60])));
     }
     for _ in 0..(if thorough { 10 } else { 3 }) {
         v.push(format!("w20_many {} {}", rng.next() % 1_000_000, *rng.pick(&[40u32, 70, 100, 140])));
@@ -66,7 +71,12 @@ fn call(rng: &mut Rng) -> (String, String) {
 
 pub fn eval(t: &[&str]) -> Option<String> {
     match t[0] {
-        "w20_conc" => {
+        "w20_conc" | "w20_pconc" => {
+            // w20_pconc: first a call panics while it holds the provider (injected through the hook), then the same
+            // concurrent load: callers that have to WAIT for the provider must be served like any other
+            if t[0] == "w20_pconc" {
+                let _ = std::panic::catch_unwind(|| temporal_rs::verif_hooks::panic_holding_tz_provider());
+            }
             let seed = i(t[1]) as u64;
             let threads = i(t[2]) as usize;
             let calls = i(t[3]) as usize;
